@@ -42,6 +42,9 @@ func (w *World) nextDefault() (Event, bool) {
 		if n.AppendPaused {
 			return Event{Kind: EvPauseAppend, Node: uint8(n.ID), Arg: 0}, true
 		}
+		if n.ReadyPaused {
+			return Event{Kind: EvPauseReady, Node: uint8(n.ID), Arg: 0}, true
+		}
 		if n.ApplyPaused {
 			return Event{Kind: EvPauseApply, Node: uint8(n.ID), Arg: 0}, true
 		}
@@ -193,7 +196,13 @@ func (d *ddfs) run(w *World, path []Event, devs int) {
 				if d.stop {
 					break
 				}
-				c := w.Clone()
+				var c *World
+				if d.sc.NoClone {
+					c, _ = replayChoices(d.sc, d.mf, path)
+					d.res.Replays++
+				} else {
+					c = w.Clone()
+				}
 				if ai == 0 && d.res.States%16 == 1 {
 					if c.Key(true) != key {
 						d.res.HarnessErr = "clone differs from its source"
